@@ -351,21 +351,37 @@ func c18Token(n int) string { return c18TokenV(n, 0) }
 // c18Variants: which special characters a token carries.  A token with all five never reaches a
 // fast path that is only wrong for some of them (an escaper that is skipped unless the value
 // contains '&', '<' or '>'), so every single character and every pair is used too, and one
-// variant is an attribute-injection payload.
-var c18Variants = []string{"<\"'>&", "<", ">", "\"", "'", "&", "<>", "<\"", "<'", "<&", ">\"", ">'", ">&", "\"'", "\"&", "'&", "\"P"}
+// variant is an attribute-injection payload.  The same again spelled with compatibility characters
+// (full-width and small forms): they pass every escaper untouched and must stay what they are — a
+// later normalisation (NFKC) would turn them into the ASCII characters.
+var c18Variants = []string{"<\"'>&", "<", ">", "\"", "'", "&", "<>", "<\"", "<'", "<&", ">\"", ">'", ">&", "\"'", "\"&", "'&", "\"P",
+	"＜＂＇＞＆", "＜", "＞", "＂", "＇", "＆", "﹤﹥﹠", "＂P", "＜／P"}
 
-// c18PayloadVariant is the index of the payload variant (it contains a space and '=').
-const c18PayloadVariant = 16
+// c18CompatChars are the compatibility spellings used above (and the full-width solidus).
+var c18CompatChars = []string{"＜", "＞", "＂", "＇", "＆", "／", "﹤", "﹥", "﹠"}
+
+// c18Suffixes: entity-looking text after the token.  core.Text keeps a literal &nbsp; — whatever
+// stands before it must be escaped all the same.
+var c18Suffixes = []string{"&nbsp;", "x&nbsp;y", "&nbsp;&nbsp;", "&amp;", "&lt;", "&#60;", "&nbsp"}
+
+func c18HasSpace(variant int) bool {
+	return strings.HasSuffix(c18Variants[variant%len(c18Variants)], "P") && !strings.HasPrefix(c18Variants[variant%len(c18Variants)], "＜")
+}
 
 func c18TokenV(n, variant int) string {
 	m := fmt.Sprintf("q%05d", n)
 	v := c18Variants[variant%len(c18Variants)]
-	if v == "\"P" {
+	switch v {
+	case "\"P":
 		return m + "\" onmouseover=\"" + m + "z"
+	case "＂P":
+		return m + "＂ onmouseover=＂" + m + "z"
+	case "＜／P":
+		return m + "＜／td" + m + "＞" + m + "z"
 	}
 	s := ""
-	for i := 0; i < len(v); i++ {
-		s += m + string(v[i])
+	for _, ch := range v {
+		s += m + string(ch)
 	}
 	return s + m + "z"
 }
@@ -403,13 +419,24 @@ func (g *c18Gen) val(kind, benign string) string {
 	g.next++
 	g.kinds[g.next] = kind
 	tok := c18TokenV(g.next, g.variant(kind, true))
+	suffix := g.suffix()
 	switch g.r.Intn(3) {
 	case 0:
-		return tok
+		return tok + suffix
 	case 1:
-		return benign + tok
+		return benign + tok + suffix
 	}
-	return tok + benign
+	return tok + benign + suffix
+}
+
+// suffix: half of the values end in entity-looking text.
+func (g *c18Gen) suffix() string {
+	if g.r.Bool() {
+		return ""
+	}
+	sfx := g.r.Pick(c18Suffixes)
+	g.variants["(suffix)/"+sfx]++
+	return sfx
 }
 
 // variant rotates the token variants over the value kinds: the k-th value of a kind in document
@@ -420,7 +447,7 @@ func (g *c18Gen) variant(kind string, payloadOK bool) int {
 	}
 	g.perKind[kind]++
 	v := (g.perKind[kind] + g.rot) % len(c18Variants)
-	if v == c18PayloadVariant && !payloadOK {
+	if c18HasSpace(v) && !payloadOK {
 		v = 3 // the bare quote
 	}
 	g.variants[kind+"/"+c18Variants[v]]++
@@ -510,6 +537,9 @@ func c18Generate(r *Rand, mode string, nowYear int, firstID int) *c18Doc {
 					parts[i] = words[i] + tok
 				default:
 					parts[i] = tok + words[i]
+				}
+				if r.Chance(1, 3) {
+					parts[i] += g.suffix()
 				}
 			}
 			sep := ","
